@@ -711,9 +711,6 @@ class AsyncFIXConnection:
         if end_seq_no == 0:
             end_seq_no = sys.maxsize
         self.log.info("Received resent request from %s to %s", begin_seq_no, end_seq_no)
-        journal_replay_msgs = self._journaler.recover_messages(
-            self._session, MessageDirection.OUTBOUND, begin_seq_no, end_seq_no
-        )
 
         # Remember next_num_out
         current_next_num_out = self._session.next_num_out
@@ -726,6 +723,15 @@ class AsyncFIXConnection:
             if self._connection_state != ConnectionState.RESENDREQ_AWAITING:
                 await self._state_set(ConnectionState.ACTIVE)
             return
+
+        # (nothing was sent beyond next_num_out, whatever number the peer gives as
+        #  "up to the end")
+        journal_replay_msgs = self._journaler.recover_messages(
+            self._session,
+            MessageDirection.OUTBOUND,
+            begin_seq_no,
+            min(end_seq_no, current_next_num_out - 1),
+        )
 
         gap_fill_begin = int(begin_seq_no)
         gap_fill_end = int(begin_seq_no)
